@@ -427,7 +427,7 @@ func c02Execute(c *c02Case, rt *rapid.T, base string, rec *vh.Recorder) (fail *v
 		// the generator's profiles: more privileged state (bans, invitations, modes) or more membership
 		// changes in a third of the histories each
 		bias := rapid.SampledFrom([]string{"", "privilege", "membership"}).Draw(rt, "profile")
-		c.Entries, ref = genHistory(rt, tmp, ircgen.Options{WithMoD: true, NoBigJumps: false, Bias: bias}, 4, 60)
+		c.Entries, ref = genHistory(rt, tmp, ircgen.Options{WithMoD: true, NoBigJumps: false, Bias: bias, BackwardsTime: rapid.Bool().Draw(rt, "backwardstime")}, 4, 60)
 	} else {
 		ref = replayHistory(c.Entries, tmp)
 	}
